@@ -301,6 +301,20 @@ def j_rules(P, E):
 
 # --------------------------------------------------------------------------- P (C13)
 
+def _forwarding_closures(P, b, c):
+    """the three callbacks a subscription is made with: the closure arguments of subscribe(next, error, complete),
+    or those of the Observer::new(..) whose result is handed to inner_subscribe(observer)"""
+    if not c.path.endswith("::inner_subscribe"):
+        return [P.bodies.get(c.arg_closure(i)) if c.arg_closure(i) else None for i in (1, 2, 3)]
+    out = None
+    for t in (b.operand_prov(c.args[1]) if len(c.args) > 1 else []):
+        if t[0] == "ret" and not t[2]:
+            oc = b.call_at(t[1])
+            if oc is not None and atom(oc) == "observer_new":
+                out = [P.bodies.get(oc.arg_closure(i)) if oc.arg_closure(i) else None for i in (0, 1, 2)]
+    return out or [None, None, None]
+
+
 def p_rules(P, E):
     r = RuleResult("P", "connectable observables: publish subscribes only in connect; ref_count/replay connect is a "
                         "test-and-set under one write guard; count==0 reaches unsubscribe of the stored subscription")
@@ -382,9 +396,9 @@ def p_rules(P, E):
                             r.violate(("P4", root, "subscription written outside connect"), "subscription cell written in %s" % b.nid, body=b)
         # P5: forwarding roles
         for c in subs:
+            fcs = _forwarding_closures(P, up, c)
             for i, want in ((1, "subject_next"), (2, "subject_error"), (3, "subject_complete")):
-                cl = c.arg_closure(i)
-                cb = P.bodies.get(cl) if cl else None
+                cb = fcs[i - 1]
                 if cb is None:
                     r.error("P5: forwarding callback is not a closure")
                     continue
@@ -398,9 +412,9 @@ def p_rules(P, E):
     if cn is not None:
         for c in cn.calls:
             if atom(c) == "subscribe":
+                fcs = _forwarding_closures(P, cn, c)
                 for i, want in ((1, "subject_next"), (2, "subject_error"), (3, "subject_complete")):
-                    cl = c.arg_closure(i)
-                    cb = P.bodies.get(cl) if cl else None
+                    cb = fcs[i - 1]
                     if cb is None:
                         continue
                     ats = [a for a in (SUBJECT_EMIT.get(x.path) for x in cb.calls) if a]
@@ -455,7 +469,12 @@ def d_rules(P, E, H):
             if any(c.path == "std::collections::VecDeque::pop_front" for c in ob.calls):
                 return True
             return any(_pops(P.orig.get(ch.id, ch)) for ch in P.children(ob))
-        gets = [b for b in P.descendants(zp)
+        cands = list(P.descendants(zp))
+        for b in P.bodies.values():          # a module-level private helper (fn pop_row(..)) counts as well
+            if b.kind == "fn" and b.nid.startswith("operators::zip::") and b not in cands:
+                cands.append(b)
+                cands += [d for d in P.descendants(b) if d not in cands]
+        gets = [b for b in cands
                 if P.orig.get(b.id, b).guards()[0] and _pops(P.orig.get(b.id, b))
                 and not any(P.orig.get(ch.id, ch).guards()[0] and _pops(P.orig.get(ch.id, ch)) for ch in P.children(b))]
         gets = [b for b in gets if not any(atom(c) in ("new_observer",) for c in b.calls)]
@@ -587,10 +606,15 @@ def a19b(P, E):
                                                                "std::sync::atomic::Atomic<bool>", "std::sync::atomic::AtomicBool")
                           for l in f["leaves"])]
     arb_cells = {}
+    # the arbiter is looked for as a *call*, every other private helper (a `deliver_terminal(..)` extracted by a
+    # refactoring) must be seen through: a view in which only the bool-returning Observer methods stay calls
+    P0 = P
+    if not hasattr(P0, "_a19b_view"):
+        keep = {m.nid for m in P0.methods_of(OBSERVER) if m.locals[0]["ty"].get("s") == "bool"}
+        P0._a19b_view = Program(P0.facts, no_inline=api_paths() | keep)
+    P = P0._a19b_view
     for name, slot in (("error", "fn_error"), ("complete", "fn_complete")):
         b = P.body(OBSERVER + "::" + name)
-        if b is not None:
-            b = P.orig.get(b.id, b)       # the arbiter is looked for as a call: un-inlined view
         if b is None:
             r.error("anchor missing: Observer::%s" % name)
             continue
@@ -607,7 +631,7 @@ def a19b(P, E):
                 continue
             if not all(rk == "param" and rd == 1 and not path for (rk, rd, path) in b.operand_prov(c.args[0])):
                 continue
-            cb = P.body(c.path)
+            cb = P0.body(c.path)       # the candidate itself is judged with everything it calls spliced in
             if cb is None or cb.locals[0]["ty"]["s"] != "bool":
                 continue
             for g in _branches_on_calls(b, [c]):
@@ -617,7 +641,7 @@ def a19b(P, E):
         for (c, cb) in cands:
             for f in bool_fields:
                 try:
-                    interp = SlotInterp(P, ((f,),), bool_cells=(0,))
+                    interp = SlotInterp(P0, ((f,),), bool_cells=(0,))
                     o0 = interp.run(cb, (False,), {1: ()})
                     o1 = interp.run(cb, (True,), {1: ()})
                 except Unsupported:
